@@ -362,6 +362,25 @@ fn c08(seed: u64, cases: usize, _model_path: &str, thorough: bool) -> serde_json
         if matches!(o, Out::Blocked) && !matches!(run.outs[1], Out::Blocked) { failures.push(json!({"witness": "C08:hang", "failure": "victim blocked although its peer has terminated", "case": desc})); }
         if biggest > 64 * len.max(1) + (1 << 20) + 4 * base_peak_hint() { failures.push(json!({"witness": "C08:alloc", "failure": format!("single allocation of {biggest} bytes for a {len}-byte message (inner length prefix at offset {off} set to 1 GiB)"), "case": desc})); }
       } } } }
+    // an INNER element one byte LONGER or SHORTER than it should be, consistently encoded (its length prefix says so and the bytes are there; the outer
+    // count and everything after it stay right): the first four plausible inner prefixes of every phase and the last one, both victim roles.
+    // A decoder that copies an element into a fixed-size array without comparing the lengths panics exactly here.
+    { let mut phases: Vec<String> = vec![]; for (ph, _) in &adv_msgs { if !phases.contains(ph) { phases.push(ph.clone()); } }
+      for ph0 in phases { for pe in 0..2 { for j in 0..5usize { for longer in [true, false] {
+        let ph1 = ph0.clone(); let hit = std::rc::Rc::new(std::cell::Cell::new((false, 0usize, 0usize))); let hit2 = hit.clone();
+        let m: exec::Mutator = Box::new(move |from, _to, ph, kk, d| { if from != 1 || ph != ph1 || kk != 0 || d.len() < 24 { return Some(d); }
+            let cands: Vec<usize> = (8..d.len() - 8).filter(|i| { let v = u64::from_le_bytes(d[*i..*i + 8].try_into().unwrap()); v > 0 && v as usize <= d.len() - i - 8 }).collect();
+            let pick = if j == 4 { if cands.len() > 4 { cands.last().copied() } else { None } } else { cands.get(j).copied() };
+            match pick { Some(i) => { let v = u64::from_le_bytes(d[i..i + 8].try_into().unwrap()) as usize; let mut out = d[..i].to_vec();
+                    if longer { out.extend(((v + 1) as u64).to_le_bytes()); out.extend(&d[i + 8..i + 8 + v]); out.push(0xAA); } else { out.extend(((v - 1) as u64).to_le_bytes()); out.extend(&d[i + 8..i + 8 + v - 1]); }
+                    out.extend(&d[i + 8 + v..]); hit2.set((true, i, d.len())); Some(out) } None => Some(d) } });
+        let run = exec::run(&c, &mk(pe), &cfg, Some(m)); let (was_hit, off, len) = hit.get(); if !was_hit { continue; } execs += 1;
+        let o = &run.outs[0]; let cl = if longer { "inner_one_byte_longer" } else { "inner_one_byte_shorter" };
+        *dist.entry(format!("class:{cl}")).or_default() += 1; distinct.insert((pe, ph0.clone(), cl, okind(o)));
+        let desc = json!({"victim_is_evaluator": pe == 0, "phase": ph0, "orig_len": len, "class": cl, "offset_of_inner_prefix": off});
+        if let Out::Panic(msg) = o { failures.push(json!({"witness": "C08:other-panic", "failure": format!("victim panicked: {msg}"), "case": desc})); }
+        if matches!(o, Out::Blocked) && !matches!(run.outs[1], Out::Blocked) { failures.push(json!({"witness": "C08:hang", "failure": "victim blocked although its peer has terminated", "case": desc})); }
+      } } } } }
     // structure-aware classes on nested vectors
     let nested: Vec<(&str, &str)> = vec![("fashare ver", "inner_empty"), ("fashare ver", "inner_short"), ("dvalue", "bits_short"), ("dvalue", "macs_short"), ("preprocessed gates", "rows_empty"), ("preprocessed gates", "rows_corrupt"), ("labels", "label_flip"), ("CO_OT_r", "point_invalid"), ("ALSZ_OT_setup", "rows_short"),
         // optional fields present where they should be absent, and absent where they should be present, in every `Vec<Option<_>>` message
